@@ -400,8 +400,11 @@ class Run:
         ev["coverage"].update(self.extra)
         if self.notes:
             ev["coverage"]["notes"] = self.notes
-        os.makedirs(os.path.join(VERIF, "evidence"), exist_ok=True)
-        with open(os.path.join(VERIF, "evidence", "%s.json" % self.prop), "w") as f:
+        # VERIF_EVIDENCE_DIR: where to write (seedtest / benigntest / regress run on a CHANGED tree and must not
+        # overwrite the evidence of the unchanged one)
+        edir = os.environ.get("VERIF_EVIDENCE_DIR") or os.path.join(VERIF, "evidence")
+        os.makedirs(edir, exist_ok=True)
+        with open(os.path.join(edir, "%s.json" % self.prop), "w") as f:
             json.dump(ev, f, indent=1)
         for fid, n in self.known_hits.items():
             f = [x for x in load_known() if x["id"] == fid][0]
